@@ -82,10 +82,11 @@ void l_crc32_chain(void) {
   void l_fnv1a##W##_default(void) {                                                                            \
     size_t in_size;                                                                                            \
     C10_BUFFER(data, in_size);                                                                                 \
-    __CPROVER_assert(X_FNV1A##W##_START == C10_FNV##W##_OFFSET_BASIS, "default seed is the FNV offset basis"); \
+    __CPROVER_assert(X_FNV1A##W##_START == C10_FNV##W##_OFFSET_BASIS, "FNV1A_START is the FNV offset basis"); \
+    __CPROVER_assert(X_FNV1A##W##_DEFAULT == C10_FNV##W##_OFFSET_BASIS && X_FNV1A##W##_DEFAULT_STR == C10_FNV##W##_OFFSET_BASIS, "the default seed of both overloads is the FNV offset basis"); \
     GH = C10_FNV##W##_OFFSET_BASIS;                                                                            \
     g_n = 0;                                                                                                   \
-    T r = fnv1a##W(data, in_size, X_FNV1A##W##_START);                                                         \
+    T r = fnv1a##W(data, in_size, X_FNV1A##W##_DEFAULT);                                                       \
     __CPROVER_assert(r == GH && g_n == in_size, "fnv1a(buf) == FNV-1a recurrence from the offset basis");      \
     VERIF_REACH();                                                                                             \
   }                                                                                                            \
